@@ -7,14 +7,15 @@ Local Open Scope string_scope.
 
 (* ---------- the generated table, spelled out (breaks when the source changes) ---------- *)
 Definition oD : optdef := {| ostrs := ["-D"]; onargs := N1; odest := DDef |}.
-Definition oP : optdef := {| ostrs := ["-I"; "-isystem"]; onargs := N1; odest := DPath |}.
+Definition oP : optdef := {| ostrs := ["-I"]; onargs := N1; odest := DPath |}.
+Definition oS : optdef := {| ostrs := ["-isystem"]; onargs := N1; odest := DSys |}.
 Definition oF : optdef := {| ostrs := ["-include"]; onargs := N1; odest := DFile |}.
 Definition oO : optdef := {| ostrs := ["-O"]; onargs := NOpt; odest := DIgn |}.
 Definition oo : optdef := {| ostrs := ["-o"]; onargs := N1; odest := DIgn |}.
 Definition og : optdef := {| ostrs := ["-g"]; onargs := NOpt; odest := DIgn |}.
 Definition oc : optdef := {| ostrs := ["-c"]; onargs := NOpt; odest := DIgn |}.
 Definition om : list (string * optdef) :=
-  [("-D", oD); ("-I", oP); ("-isystem", oP); ("-include", oF); ("-O", oO); ("-o", oo); ("-g", og); ("-c", oc)].
+  [("-D", oD); ("-I", oP); ("-isystem", oS); ("-include", oF); ("-O", oO); ("-o", oo); ("-g", og); ("-c", oc)].
 
 Lemma om_eq : optmap_of c11_options = om.
 Proof. reflexivity. Qed.
@@ -23,7 +24,7 @@ Proof. reflexivity. Qed.
 Lemma raises_eq : c11_error_raises = true.
 Proof. reflexivity. Qed.
 
-Definition opt_of (k : kind) : optdef := match k with KD => oD | KP => oP | KF => oF end.
+Definition opt_of (k : kind) : optdef := match k with KD => oD | KP => oP | KS => oS | KF => oF end.
 
 (* ---------- strings ---------- *)
 Lemma split_at_app c s x y : split_at c s = Some (x, y) -> s = x ++ String c y.
@@ -248,19 +249,20 @@ Proof.
 Qed.
 
 (* ---------- the whole argument vector ---------- *)
-Definition acc_of (l : lists) (ex : list string) : acc :=
-  match l with (d, p, f) => {| defs := map Some d; paths := map Some p; files := map Some f; extras := ex |} end.
+Definition acc_of (l : lists4) (ex : list string) : acc :=
+  match l with (d, p, s, f) =>
+    {| defs := map Some d; paths := map Some p; syspaths := map Some s; files := map Some f; extras := ex |} end.
 
 Lemma value_of_some v : v <> "--" -> value_of v = Some v.
 Proof. intros H. unfold value_of. now rewrite (proj2 (String.eqb_neq _ _) H). Qed.
 
 Lemma push_add k v l ex :
   v <> "--" -> push (odest (opt_of k)) (value_of v) (Parsed (acc_of l ex)) = Parsed (acc_of (add k v l) ex).
-Proof. intros H. rewrite value_of_some by assumption. destruct l as [[d p] f]. destruct k; reflexivity. Qed.
+Proof. intros H. rewrite value_of_some by assumption. destruct l as [[[d p] s] f]. destruct k; reflexivity. Qed.
 Lemma push_ign v o : push DIgn v o = o.
 Proof. destruct o as [[]|[]|]; reflexivity. Qed.
 Lemma push_extra_parsed s l ex : push_extra s (Parsed (acc_of l ex)) = Parsed (acc_of l (s :: ex)).
-Proof. destruct l as [[d p] f]. reflexivity. Qed.
+Proof. destruct l as [[[d p] q] f]. reflexivity. Qed.
 
 Definition pend_ok (p : option optdef) : Prop :=
   match p with None => True | Some o => odest o = DIgn /\ onargs o = NOpt end.
@@ -344,8 +346,8 @@ Proof.
       apply good_flag_value; auto. intros l ex. apply (push_add KD); assumption.
     + exists (("-I", CO (Some oP) None) :: (v, CA) :: toks). split; [apply classify_cons; auto|].
       apply good_flag_value; auto. intros l ex. apply (push_add KP); assumption.
-    + exists (("-isystem", CO (Some oP) None) :: (v, CA) :: toks). split; [apply classify_cons; auto|].
-      apply good_flag_value; auto. intros l ex. apply (push_add KP); assumption.
+    + exists (("-isystem", CO (Some oS) None) :: (v, CA) :: toks). split; [apply classify_cons; auto|].
+      apply good_flag_value; auto. intros l ex. apply (push_add KS); assumption.
     + exists (("-include", CO (Some oF) None) :: (v, CA) :: toks). split; [apply classify_cons; auto|].
       apply good_flag_value; auto. intros l ex. apply (push_add KF); assumption.
     + exists (("-o", CO (Some oo) None) :: (v, CA) :: toks). split; [apply classify_cons; auto|].
@@ -395,7 +397,7 @@ Qed.
 
 Theorem parse_safe argv :
   safe argv = true ->
-  exists ex, parse_args argv = ROk (acc_of (scan_S argv) ex).
+  exists ex, parse_args argv = ROk (acc_of (scan4_S argv) ex).
 Proof.
   intros Hs. destruct (run_safe (length argv) argv (le_n _) Hs) as (toks & Hc & Hg).
   destruct (Hg PAvail None I) as [ex Hex]. exists ex.
@@ -405,33 +407,40 @@ Qed.
 Corollary parse_safe_lists argv :
   safe argv = true -> lists_of (parse_args argv) = Some (some3 (scan_S argv)).
 Proof.
-  intros Hs. destruct (parse_safe argv Hs) as [ex ->]. unfold scan_S.
-  destruct (scan None argv) as [[d p] f]. reflexivity.
+  intros Hs. destruct (parse_safe argv Hs) as [ex ->]. unfold scan_S, scan4_S.
+  destruct (scan None argv) as [[[d p] s] f]. cbn. now rewrite map_app.
+Qed.
+
+Corollary parse_safe_lists4 argv :
+  safe argv = true -> lists4_of (parse_args argv) = Some (some4 (scan4_S argv)).
+Proof.
+  intros Hs. destruct (parse_safe argv Hs) as [ex ->]. unfold scan4_S.
+  destruct (scan None argv) as [[[d p] s] f]. reflexivity.
 Qed.
 
 (* ---------- composition: order and neutrality ---------- *)
 From CBI Require Import Spec.C11safe_more.
 
-Lemma add_app3 k v a b : add k v (app3 a b) = app3 (add k v a) b.
-Proof. destruct a as [[d1 p1] f1], b as [[d2 p2] f2], k; reflexivity. Qed.
-Lemma app3_nil_l b : app3 ([], [], []) b = b.
-Proof. destruct b as [[d p] f]. reflexivity. Qed.
+Lemma add_app4 k v a b : add k v (app4 a b) = app4 (add k v a) b.
+Proof. destruct a as [[[d1 p1] s1] f1], b as [[[d2 p2] s2] f2], k; reflexivity. Qed.
+Lemma app4_nil_l b : app4 ([], [], [], []) b = b.
+Proof. destruct b as [[[d p] s] f]. reflexivity. Qed.
 
 (* S is a homomorphism at every point where no flag awaits its value *)
 Lemma scan_app_from l1 : forall pend l2,
-  complete_from pend l1 = true -> scan pend (l1 ++ l2) = app3 (scan pend l1) (scan None l2).
+  complete_from pend l1 = true -> scan pend (l1 ++ l2) = app4 (scan pend l1) (scan None l2).
 Proof.
   induction l1 as [|t r IH]; intros pend l2 H.
-  - destruct pend; [discriminate|]. cbn [app scan]. now rewrite app3_nil_l.
+  - destruct pend; [discriminate|]. cbn [app scan]. now rewrite app4_nil_l.
   - cbn [app scan complete_from] in *. destruct pend as [k|].
-    + rewrite IH by assumption. apply add_app3.
+    + rewrite IH by assumption. apply add_app4.
     + destruct (recognise t) as [[k [|c v]]|].
       * now apply IH.
-      * rewrite IH by assumption. apply add_app3.
+      * rewrite IH by assumption. apply add_app4.
       * now apply IH.
 Qed.
 
-Theorem scan_app l1 l2 : complete l1 = true -> scan_S (l1 ++ l2) = app3 (scan_S l1) (scan_S l2).
+Theorem scan_app l1 l2 : complete l1 = true -> scan4_S (l1 ++ l2) = app4 (scan4_S l1) (scan4_S l2).
 Proof. apply scan_app_from. Qed.
 
 Lemma scan_skip e : forall l, forallb unrecognised e = true -> scan None (e ++ l) = scan None l.
@@ -447,12 +456,15 @@ Proof.
   unfold unrecognised in Ht. cbn [complete_from]. destruct (recognise t); [discriminate|]. now apply IH.
 Qed.
 
-Theorem scan_neutral l1 e l2 :
-  complete l1 = true -> forallb unrecognised e = true -> scan_S (l1 ++ e ++ l2) = scan_S (l1 ++ l2).
+Theorem scan4_neutral l1 e l2 :
+  complete l1 = true -> forallb unrecognised e = true -> scan4_S (l1 ++ e ++ l2) = scan4_S (l1 ++ l2).
 Proof.
-  intros H1 He. rewrite (scan_app l1 (e ++ l2) H1), (scan_app l1 l2 H1). unfold scan_S.
+  intros H1 He. rewrite (scan_app l1 (e ++ l2) H1), (scan_app l1 l2 H1). unfold scan4_S.
   rewrite (scan_skip e l2 He). reflexivity.
 Qed.
+Theorem scan_neutral l1 e l2 :
+  complete l1 = true -> forallb unrecognised e = true -> scan_S (l1 ++ e ++ l2) = scan_S (l1 ++ l2).
+Proof. intros H1 He. unfold scan_S. now rewrite scan4_neutral. Qed.
 
 (* [safe] splits at closed points, and closed + safe implies complete *)
 Lemma safe_closed_facts : forall n l1, length l1 <= n -> closed l1 = true ->
@@ -487,20 +499,20 @@ Proof. intros H. now apply (safe_closed_facts (length l1) l1 (le_n _) H). Qed.
 Lemma closed_safe_complete l1 : closed l1 = true -> safe l1 = true -> complete l1 = true.
 Proof. intros H. now apply (safe_closed_facts (length l1) l1 (le_n _) H). Qed.
 
-Lemma some3_app3 a b : some3 (app3 a b) = app3v (some3 a) (some3 b).
-Proof. destruct a as [[d1 p1] f1], b as [[d2 p2] f2]. cbn. now rewrite !map_app. Qed.
+Lemma some4_app4 a b : some4 (app4 a b) = app4v (some4 a) (some4 b).
+Proof. destruct a as [[[d1 p1] s1] f1], b as [[[d2 p2] s2] f2]. cbn. now rewrite !map_app. Qed.
 
-(* M: the lists of a concatenation are the concatenations of the lists (within safe) *)
+(* M: per destination, the lists of a concatenation are the concatenations of the lists (within safe) *)
 Theorem parse_order l1 l2 :
   closed l1 = true -> safe (l1 ++ l2) = true ->
-  exists a1 a2, lists_of (parse_args l1) = Some a1 /\ lists_of (parse_args l2) = Some a2 /\
-                lists_of (parse_args (l1 ++ l2)) = Some (app3v a1 a2).
+  exists a1 a2, lists4_of (parse_args l1) = Some a1 /\ lists4_of (parse_args l2) = Some a2 /\
+                lists4_of (parse_args (l1 ++ l2)) = Some (app4v a1 a2).
 Proof.
   intros Hc Hs. pose proof Hs as Hs'. rewrite safe_app in Hs' by assumption.
   apply andb_prop in Hs'. destruct Hs' as [S1 S2].
-  exists (some3 (scan_S l1)), (some3 (scan_S l2)).
-  rewrite !parse_safe_lists by assumption. repeat split.
-  rewrite scan_app by (now apply closed_safe_complete). now rewrite some3_app3.
+  exists (some4 (scan4_S l1)), (some4 (scan4_S l2)).
+  rewrite !parse_safe_lists4 by assumption. repeat split.
+  rewrite scan_app by (now apply closed_safe_complete). now rewrite some4_app4.
 Qed.
 
 (* M: inserting an unrecognised, self-contained group of arguments at a closed point changes nothing (within safe) *)
